@@ -54,11 +54,157 @@ def _num(v):
     return v
 
 
+def _owner_of(fn):
+    """class object a plain function was defined in (via __qualname__), or None"""
+    g = getattr(fn, "__globals__", {})
+    parts = getattr(fn, "__qualname__", "").split(".")[:-1]
+    obj = None
+    for part in parts:
+        if part == "<locals>":
+            return None
+        obj = g.get(part) if obj is None else getattr(obj, part, None)
+        if obj is None:
+            return None
+    return obj if inspect.isclass(obj) else None
+
+
+def _plain_function(obj):
+    if isinstance(obj, (staticmethod, classmethod)):
+        obj = obj.__func__
+    return obj if inspect.isfunction(obj) else None
+
+
 class Interp:
-    def __init__(self, env, calls=None, on_unknown_name=None):
+    MAX_DEPTH = 6
+
+    def __init__(self, env, calls=None, on_unknown_name=None, fn=None, owner=None, globs=None):
         self.calls = calls or {}
         self.env0 = dict(env)
         self.on_unknown_name = on_unknown_name
+        self.owner = owner if owner is not None else (_owner_of(fn) if fn is not None else None)
+        self.globs = globs if globs is not None else (getattr(fn, "__globals__", {}) if fn is not None else {})
+        self.depth = 0
+        self.inlined = []
+
+    # ---- calls into the code under analysis (helper methods / module functions): inlined ---------
+    def _callee(self, func_node, env):
+        """-> (function object, receiver key or None) when the call targets translatable nauyaca code"""
+        if isinstance(func_node, ast.Attribute):
+            try:
+                recv = _key(func_node.value)
+            except Unsupported:
+                return None, None
+            if recv == "self" and self.owner is not None:
+                f = _plain_function(inspect.getattr_static(self.owner, func_node.attr, None))
+                if f is not None:
+                    return f, recv
+            return None, None
+        if isinstance(func_node, ast.Name):
+            f = _plain_function(self.globs.get(func_node.id))
+            if f is not None and str(getattr(f, "__module__", "")).startswith("nauyaca"):
+                return f, None
+        return None, None
+
+    def _is_object(self, key, env):
+        pre = key + "."
+        for k in env:
+            if k.startswith(pre):
+                return True
+        return False
+
+    def inline(self, n, env):
+        """Evaluate the call node ``n`` by translating the callee's body.  -> (value, env after the call)."""
+        f, recv = self._callee(n.func, env)
+        if f is None:
+            raise Unsupported("call %s" % ast.unparse(n.func))
+        if self.depth >= self.MAX_DEPTH:
+            raise Unsupported("inlining depth (recursion?) at %s" % f.__qualname__)
+        node = fn_ast(f)
+        if isinstance(node, ast.AsyncFunctionDef):
+            raise Unsupported("call of coroutine function %s" % f.__qualname__)
+        a = node.args
+        if a.vararg or a.kwarg or a.kwonlyargs or a.posonlyargs:
+            raise Unsupported("signature of %s" % f.__qualname__)
+        params = [x.arg for x in a.args]
+        is_method = recv is not None and not isinstance(inspect.getattr_static(self.owner, f.__name__, None), staticmethod)
+        actual = []          # (param, kind, payload)
+        if is_method:
+            actual.append((params[0], "obj", recv))
+            params = params[1:]
+        if n.keywords and any(k.arg is None for k in n.keywords):
+            raise Unsupported("**kwargs in call")
+        given = {}
+        for prm, arg in zip(params, n.args):
+            given[prm] = arg
+        if len(n.args) > len(params):
+            raise Unsupported("too many arguments for %s" % f.__qualname__)
+        for k in n.keywords:
+            given[k.arg] = k.value
+        defaults = dict(zip(params[len(params) - len(a.defaults):], a.defaults)) if a.defaults else {}
+        for prm in params:
+            if prm in given:
+                arg = given[prm]
+                key = None
+                if isinstance(arg, (ast.Name, ast.Attribute)):
+                    try:
+                        key = _key(arg)
+                    except Unsupported:
+                        key = None
+                if key is not None and key not in env and self._is_object(key, env):
+                    actual.append((prm, "obj", key))
+                else:
+                    actual.append((prm, "val", self.expr(arg, env)))
+            elif prm in defaults:
+                actual.append((prm, "val", self.expr(defaults[prm], {})))
+            else:
+                raise Unsupported("missing argument %s for %s" % (prm, f.__qualname__))
+        # callee environment: objects are passed by prefix renaming, values by name
+        cenv = {}
+        back = []            # (callee prefix, caller prefix)
+        for prm, kind, payload in actual:
+            if kind == "val":
+                cenv[prm] = payload
+            else:
+                pre = payload + "."
+                for k, v in env.items():
+                    if k.startswith(pre):
+                        cenv[prm + "." + k[len(pre):]] = v
+                back.append((prm + ".", pre))
+        sub = Interp(cenv, self.calls, fn=f)
+        if recv is not None and sub.owner is None:
+            sub.owner = self.owner
+        sub.depth = self.depth + 1
+        leaves = sub.block(node.body, z3.BoolVal(True), cenv)
+        self.inlined.append(f.__qualname__)
+        self.inlined.extend(sub.inlined)
+        # fold the callee's leaves: state of the passed objects, and the return value
+        env2 = dict(env)
+        for cpre, pre in back:
+            keys = []
+            for c, e, r in leaves:
+                for k in e:
+                    if k.startswith(cpre) and k not in keys:
+                        keys.append(k)
+            for k in keys:
+                for c, e, r in leaves:
+                    if k not in e:
+                        raise Unsupported("attribute %s assigned on some paths only" % k)
+                vals = [e[k] for c, e, r in leaves]
+                same = all(v is vals[0] for v in vals)
+                env2[pre + k[len(cpre):]] = vals[0] if same else merge(leaves, k)
+        rets = [r for c, e, r in leaves]
+        if all(r is _NORET or r is None for r in rets):
+            value = None
+        else:
+            value = merge(leaves)
+        return value, env2
+
+    def _pure_call(self, n, env):
+        value, env2 = self.inline(n, env)
+        for k, v in env2.items():
+            if k not in env or env[k] is not v:
+                raise Unsupported("call with side effects inside an expression: %s" % ast.unparse(n.func))
+        return value
 
     # ---- expressions -------------------------------------------------------------------
     def expr(self, n, env):
@@ -72,6 +218,9 @@ class Interp:
             k = _key(n)
             if k in env:
                 return env[k]
+            const = self._constant(k)
+            if const is not None:
+                return const
             raise Unsupported("unknown name %s" % k)
         if isinstance(n, ast.BinOp):
             a, b = self.expr(n.left, env), self.expr(n.right, env)
@@ -118,10 +267,15 @@ class Interp:
         if isinstance(n, ast.IfExp):
             return z3.If(self.truth(self.expr(n.test, env)), self.expr(n.body, env), self.expr(n.orelse, env))
         if isinstance(n, ast.Call):
-            name = _key(n.func)
+            try:
+                name = _key(n.func)
+            except Unsupported:
+                raise Unsupported("call %s" % ast.unparse(n.func)[:60])
             if name == "float" and len(n.args) == 1 and isinstance(n.args[0], ast.Constant) \
                     and str(n.args[0].value).lower() in ("inf", "+inf", "infinity"):
                 return INF
+            if name not in self.calls and self._callee(n.func, env)[0] is not None:
+                return self._pure_call(n, env)
             args = [self.expr(a, env) for a in n.args]
             if n.keywords:
                 raise Unsupported("keyword arguments in call to %s" % name)
@@ -139,6 +293,35 @@ class Interp:
         if isinstance(n, ast.Tuple):
             return tuple(self.expr(e, env) for e in n.elts)
         raise Unsupported("expression %s" % type(n).__name__)
+
+    def _constant(self, k):
+        """numeric module-level / class-level constant of the code under analysis"""
+        obj = None
+        parts = k.split(".")
+        if parts[0] == "self" and self.owner is not None and len(parts) == 2:
+            obj = inspect.getattr_static(self.owner, parts[1], None)
+        elif parts[0] in self.globs:
+            obj = self.globs[parts[0]]
+            for part in parts[1:]:
+                if inspect.ismodule(obj) or inspect.isclass(obj):
+                    obj = getattr(obj, part, None)
+                else:
+                    return None
+        if isinstance(obj, bool) or not isinstance(obj, (int, float)):
+            return None
+        if obj != obj or obj in (float("inf"), float("-inf")):
+            return INF if obj == float("inf") else None
+        return _num(obj)
+
+    def _inlinable(self, n, env):
+        if not isinstance(n, ast.Call):
+            return False
+        try:
+            if _key(n.func) in self.calls:
+                return False
+        except Unsupported:
+            return False
+        return self._callee(n.func, env)[0] is not None
 
     def truth(self, v):
         if z3.is_bool(v):
@@ -167,16 +350,25 @@ class Interp:
         if isinstance(st, ast.Expr):
             if isinstance(st.value, ast.Constant):
                 return [(cond, env, _NORET)]          # docstring
+            if self._inlinable(st.value, env):
+                _, e2 = self.inline(st.value, env)
+                return [(cond, e2, _NORET)]
             raise Unsupported("expression statement")
         if isinstance(st, ast.Assign):
             if len(st.targets) != 1:
                 raise Unsupported("multiple targets")
-            e2 = dict(env)
-            e2[_key(st.targets[0])] = self.expr(st.value, env)
+            if self._inlinable(st.value, env):
+                val, e2 = self.inline(st.value, env)
+            else:
+                val, e2 = self.expr(st.value, env), dict(env)
+            e2[_key(st.targets[0])] = val
             return [(cond, e2, _NORET)]
         if isinstance(st, ast.AnnAssign) and st.value is not None:
-            e2 = dict(env)
-            e2[_key(st.target)] = self.expr(st.value, env)
+            if self._inlinable(st.value, env):
+                val, e2 = self.inline(st.value, env)
+            else:
+                val, e2 = self.expr(st.value, env), dict(env)
+            e2[_key(st.target)] = val
             return [(cond, e2, _NORET)]
         if isinstance(st, ast.AugAssign):
             k = _key(st.target)
@@ -190,6 +382,9 @@ class Interp:
             b = self.block(st.orelse, z3.And(cond, z3.Not(t)), env) if st.orelse else [(z3.And(cond, z3.Not(t)), env, _NORET)]
             return a + b
         if isinstance(st, ast.Return):
+            if st.value is not None and self._inlinable(st.value, env):
+                val, e2 = self.inline(st.value, env)
+                return [(cond, e2, val)]
             return [(cond, env, self.expr(st.value, env) if st.value is not None else None)]
         if isinstance(st, ast.Pass):
             return [(cond, env, _NORET)]
@@ -206,7 +401,7 @@ _NORET = _NoRet()
 
 def run_function(fn, env, calls=None):
     node = fn_ast(fn)
-    it = Interp(env, calls)
+    it = Interp(env, calls, fn=fn)
     return it.block(node.body, z3.BoolVal(True), dict(env))
 
 
@@ -231,6 +426,125 @@ def has_await(fn) -> bool:
         if isinstance(sub, (ast.Await, ast.AsyncFor, ast.AsyncWith, ast.Yield, ast.YieldFrom)):
             return True
     return False
+
+
+def _mentions(node, text):
+    return text in ast.unparse(node)
+
+
+def _value_var(target, it):
+    src = ast.unparse(it)
+    if isinstance(target, ast.Tuple) and len(target.elts) == 2 and ".items()" in src and isinstance(target.elts[1], ast.Name):
+        return target.elts[1].id
+    if isinstance(target, ast.Name) and ".values()" in src:
+        return target.id
+    raise Unsupported("iteration shape over the bucket table: for %s in %s" % (ast.unparse(target), src))
+
+
+def _and(tests):
+    if not tests:
+        return None
+    t = tests[0]
+    for extra in tests[1:]:
+        t = ast.BoolOp(op=ast.And(), values=[t, extra])
+    return t
+
+
+class Eviction:
+    """Where and under which condition a function (and the helper methods it calls) drops entries of ``table``
+    (e.g. ``self.buckets``).  Found by walking the live AST: a list comprehension over the table whose result is
+    deleted, a ``for`` loop over the table with a guarded ``del``/``pop``, or a dict comprehension that rebuilds the
+    table (kept = not evicted).  Local assignments met on the way (``now = time.monotonic()``) and the parameters of
+    helper methods are evaluated, so the predicate is closed over the clock reading."""
+
+    def __init__(self, fn, table="self.buckets", calls=None):
+        self.table = table
+        self.calls = calls or {}
+        self.found = None          # (test ast | None, negate, value var, env, function)
+        self.path = []
+        it = Interp({}, self.calls, fn=fn)
+        self._scan_fn(fn, {}, it.owner, 0)
+        if self.found is None:
+            raise Unsupported("no eviction over %s found from %s" % (table, fn.__qualname__))
+
+    def _scan_fn(self, fn, env, owner, depth):
+        if depth > 4 or self.found is not None:
+            return
+        node = fn_ast(fn)
+        it = Interp(env, self.calls, fn=fn, owner=owner)
+        self.path.append(fn.__qualname__)
+        self._scan(node.body, dict(env), it, fn, depth)
+
+    def _scan(self, stmts, env, it, fn, depth):
+        for st in stmts:
+            if self.found is not None:
+                return
+            comp = None
+            if isinstance(st, (ast.Assign, ast.AnnAssign)) and st.value is not None:
+                v = st.value
+                tgt = st.targets[0] if isinstance(st, ast.Assign) else st.target
+                if isinstance(v, (ast.ListComp, ast.SetComp, ast.GeneratorExp)) and _mentions(v.generators[0].iter, self.table):
+                    g = v.generators[0]
+                    self.found = (_and(g.ifs), False, _value_var(g.target, g.iter), dict(env), fn, it.owner)
+                    return
+                if isinstance(v, ast.DictComp) and _mentions(v.generators[0].iter, self.table) and _mentions(tgt, self.table):
+                    g = v.generators[0]
+                    self.found = (_and(g.ifs), True, _value_var(g.target, g.iter), dict(env), fn, it.owner)
+                    return
+                if isinstance(tgt, ast.Name):
+                    try:
+                        env[tgt.id] = it.expr(v, env)
+                    except Unsupported:
+                        env.pop(tgt.id, None)
+                continue
+            if isinstance(st, ast.For) and _mentions(st.iter, self.table):
+                var = _value_var(st.target, st.iter)
+                for inner in st.body:
+                    if isinstance(inner, ast.If) and any(isinstance(x, ast.Delete) or (isinstance(x, ast.Expr) and ".pop(" in ast.unparse(x))
+                                                         for x in ast.walk(ast.Module(body=inner.body, type_ignores=[]))):
+                        self.found = (inner.test, False, var, dict(env), fn, it.owner)
+                        return
+                raise Unsupported("loop over %s without a guarded deletion" % self.table)
+            if isinstance(st, ast.Expr):
+                call = st.value.value if isinstance(st.value, ast.Await) else st.value
+                if isinstance(call, ast.Call):
+                    f, recv = it._callee(call.func, env)
+                    if f is not None:
+                        node = fn_ast(f)
+                        params = [a.arg for a in node.args.args]
+                        if recv is not None:
+                            params = params[1:]
+                        cenv = {}
+                        try:
+                            for prm, arg in zip(params, call.args):
+                                cenv[prm] = it.expr(arg, env)
+                            for kw in call.keywords:
+                                cenv[kw.arg] = it.expr(kw.value, env)
+                        except Unsupported:
+                            pass
+                        self._scan_fn(f, cenv, it.owner, depth + 1)
+                continue
+            for field in ("body", "orelse", "finalbody"):
+                sub = getattr(st, field, None)
+                if isinstance(sub, list) and sub and isinstance(sub[0], ast.stmt):
+                    self._scan(sub, env, it, fn, depth)
+            if isinstance(st, ast.Try):
+                for h in st.handlers:
+                    self._scan(h.body, env, it, fn, depth)
+
+    def predicate(self, bucket_attrs, extra=None):
+        """z3 Bool: the entry whose attributes are ``bucket_attrs`` (attr name -> term) is evicted"""
+        test, negate, var, env, fn, owner = self.found
+        e = dict(env)
+        e.update(extra or {})
+        for k, v in bucket_attrs.items():
+            e[var + "." + k] = v
+        if test is None:
+            return z3.BoolVal(not negate)
+        it = Interp(e, self.calls, fn=fn, owner=owner)
+        t = it.truth(it.expr(test, e))
+        self.inlined = it.inlined
+        return z3.Not(t) if negate else t
 
 
 def find_comprehension_filter(fn, iter_contains):
